@@ -213,4 +213,37 @@ namespace vh
         }
         return out + " gl=" + gl + " st=" + st + " res=" + res;
     }
+
+    // op <text> [<setup>]
+    //   a fresh VM with every operator registered and a run-time limit of two seconds; <setup> (statements) runs
+    //   first and is not observed; then "gr = <text>" is parsed and run.
+    //   -> "res=<result> err=<error-level codes> type=<type of gr> dmem=<growth of the resident set in MB>"
+    inline std::string verb_op(const std::vector<std::string>& f)
+    {
+        std::string text = f.size() > 0 ? f[0] : std::string();
+        std::string setup = f.size() > 1 ? f[1] : std::string();
+        struct rusage r0; getrusage(RUSAGE_SELF, &r0);
+        auto v = make_vm(regmode::real, 2000);
+        sqf::runtime::fileio::pathinfo pi(std::string("op.sqf"), std::string());
+        if (!setup.empty())
+        {
+            auto s0 = v.rt->parser_sqf().parse(*v.rt, setup, pi);
+            if (!s0.has_value()) { return "setup-parse-error"; }
+            auto c0 = v.rt->context_create().lock();
+            c0->push_frame(sqf::runtime::frame(v.rt->default_value_scope(), *s0));
+            v.rt->execute(sqf::runtime::runtime::action::start);
+            v.logger->entries.clear();
+        }
+        auto set = v.rt->parser_sqf().parse(*v.rt, "gr = " + text, pi);
+        if (!set.has_value()) { return "parse-error"; }
+        auto context = v.rt->context_create().lock();
+        context->push_frame(sqf::runtime::frame(v.rt->default_value_scope(), *set));
+        auto res = v.rt->execute(sqf::runtime::runtime::action::start);
+        std::string type = "-";
+        auto ns = v.rt->default_value_scope();
+        if (ns->contains("gr")) { type = std::string(ns->at("gr").type().to_string()); }
+        struct rusage r1; getrusage(RUSAGE_SELF, &r1);
+        long dmem = (r1.ru_maxrss - r0.ru_maxrss) / 1024;
+        return std::string("res=") + result_name(res) + " err=" + v.logger->codes((int)loglevel::error) + " type=" + type + " dmem=" + std::to_string(dmem);
+    }
 }
